@@ -30,3 +30,97 @@ package bam
 //@   loop 0 invariant @fields forall k in 0..len(aa) :: len(aa[k]) >= 3
 //@   loop 0 decreases len(aux) - i
 //@   ensures[C11] @fields result1 == nil ==> forall k in 0..len(result0) :: len(result0[k]) >= 3
+
+// The record buffer: every reader keeps 0 <= off <= len(data), never indexes
+// beyond the data, and hands binary.LittleEndian exactly the bytes it needs.
+//@ trusted func ext:encoding/binary.littleEndian.Uint16
+//@   requires len(b) >= 2
+//@ trusted func ext:encoding/binary.littleEndian.Uint32
+//@   requires len(b) >= 4
+
+//@ func buffer.len
+//@   mode int
+//@   props C11
+//@   decoder
+//@   requires 0 <= b.off && b.off <= len(b.data)
+//@   ensures[C11] @value result == len(b.data) - b.off
+
+//@ func buffer.unsafeBytes
+//@   mode int
+//@   props C11
+//@   decoder
+//@   requires 0 <= b.off && b.off <= len(b.data) && 0 <= n
+//@   modifies b.off, b.err
+//@   ensures[C11] @inv old(b.off) <= b.off && b.off <= len(b.data) && b.data == old(b.data)
+//@   ensures[C11] @got (old(b.err) == nil && old(len(b.data) - b.off) >= n) ==> (len(result) == n && b.err == nil && b.off == old(b.off) + n)
+//@   ensures[C11] @short (old(b.err) != nil || old(len(b.data) - b.off) < n) ==> (len(result) == 0 && b.err != nil && b.off == old(b.off))
+
+//@ func buffer.discard
+//@   mode int
+//@   props C11
+//@   decoder
+//@   requires 0 <= b.off && b.off <= len(b.data) && 0 <= n
+//@   modifies b.off, b.err
+//@   ensures[C11] @inv old(b.off) <= b.off && b.off <= len(b.data) && b.data == old(b.data)
+
+//@ func buffer.readUint8
+//@   mode int
+//@   props C11
+//@   decoder
+//@   requires 0 <= b.off && b.off <= len(b.data)
+//@   modifies b.off, b.err
+//@   ensures[C11] @inv old(b.off) <= b.off && b.off <= len(b.data) && b.data == old(b.data)
+
+//@ func buffer.readUint16
+//@   mode int
+//@   props C11
+//@   decoder
+//@   requires 0 <= b.off && b.off <= len(b.data)
+//@   modifies b.off, b.err
+//@   ensures[C11] @inv old(b.off) <= b.off && b.off <= len(b.data) && b.data == old(b.data)
+
+//@ func buffer.readInt32
+//@   mode int
+//@   props C11
+//@   decoder
+//@   requires 0 <= b.off && b.off <= len(b.data)
+//@   modifies b.off, b.err
+//@   ensures[C11] @inv old(b.off) <= b.off && b.off <= len(b.data) && b.data == old(b.data)
+
+//@ func buffer.bytes
+//@   mode int
+//@   props C11
+//@   decoder
+//@   requires 0 <= b.off && b.off <= len(b.data) && 0 <= n
+//@   modifies b.off, b.err
+//@   ensures[C11] @inv old(b.off) <= b.off && b.off <= len(b.data) && b.data == old(b.data)
+//@   ensures[C11] @len len(result) == 0 || len(result) == n
+
+//@ func readCigarOps
+//@   mode int
+//@   props C11
+//@   decoder
+//@   loop 0 invariant @idx 0 <= i && i <= len(co) && len(co) == div(len(cb), 4) && fresh(co)
+//@   loop 0 decreases len(co) - i
+//@   ensures[C11] @len len(result) == div(len(cb), 4)
+
+// Reader.Read decodes one record from the block newBuffer delivers. Whatever
+// the block holds, it returns a record or an error: all lengths handed to the
+// buffer are non-negative and the reference ids are checked against the header
+// before they index it.
+//@ trusted func newBuffer
+//@   ensures result1 == nil ==> (result0 != nil && result0.off == 0 && fresh(result0))
+//@ trusted func ext:github.com/biogo/hts/sam.Header.Refs
+//@   ensures len(result) == len(bh.refs)
+// BGZF virtual offsets hold the file offset in 48 bits.
+//@ trusted func ext:github.com/biogo/hts/bgzf.Reader.LastChunk
+//@   ensures 0 <= result.End.File && result.End.File < 140737488355328
+
+//@ func Reader.Read
+//@   mode int
+//@   props C11
+//@   decoder
+//@   requires br.h != nil && br.r != nil
+//@   requires br.c != nil ==> (0 <= br.c.End.File && br.c.End.File < 140737488355328)
+//@ func vOffset
+//@   inline
